@@ -1,11 +1,145 @@
 package main
 
 import (
+	"flag"
 	"fmt"
-	_ "golang.org/x/tools/go/packages"
-	_ "golang.org/x/tools/go/ssa"
-	_ "golang.org/x/tools/go/ssa/ssautil"
-	_ "golang.org/x/tools/go/ast/astutil"
+	"os"
+	"path/filepath"
+	"sort"
+	"strings"
+	"time"
 )
 
-func main() { fmt.Println("govc") }
+func verifDir() string {
+	if d := os.Getenv("VERIF_DIR"); d != "" {
+		return d
+	}
+	return "/verif"
+}
+
+func main() {
+	if len(os.Args) < 2 {
+		fmt.Fprintln(os.Stderr, "usage: govc verify|check|list ...")
+		os.Exit(2)
+	}
+	switch os.Args[1] {
+	case "verify":
+		cmdVerify(os.Args[2:])
+	case "check":
+		os.Exit(cmdCheck(os.Args[2:]))
+	case "list":
+		cmdList(os.Args[2:])
+	default:
+		fmt.Fprintln(os.Stderr, "unknown command", os.Args[1])
+		os.Exit(2)
+	}
+}
+
+func loadAll() (*Program, *Engine) {
+	t0 := time.Now()
+	p, err := LoadProgram(repoDir())
+	if err != nil {
+		fmt.Fprintln(os.Stderr, "load:", err)
+		os.Exit(2)
+	}
+	e, err := NewEngine(p, verifDir())
+	if err != nil {
+		fmt.Fprintln(os.Stderr, "specs:", err)
+		os.Exit(2)
+	}
+	fmt.Fprintf(os.Stderr, "loaded %d module functions, %d contracts in %.1fs\n", len(p.ModFuncs), len(e.specs.Funcs), time.Since(t0).Seconds())
+	return p, e
+}
+
+func cmdList(args []string) {
+	p, e := loadAll()
+	for _, fn := range p.ModFuncs {
+		mark := " "
+		if _, ok := e.specs.Funcs[FuncKey(fn)]; ok {
+			mark = "C"
+		}
+		fmt.Printf("%s %s\n", mark, FuncKey(fn))
+	}
+}
+
+func cmdVerify(args []string) {
+	fs := flag.NewFlagSet("verify", flag.ExitOnError)
+	lock := fs.Bool("lock", false, "lockset obligations")
+	timeout := fs.Int("timeout", 10, "solver timeout (s)")
+	dump := fs.Bool("dump", false, "dump queries of unproved obligations to /tmp/govc-dump")
+	verbose := fs.Bool("v", false, "verbose")
+	fs.Parse(args)
+	p, e := loadAll()
+	var frs []*FuncResult
+	for _, pat := range fs.Args() {
+		matched := false
+		for _, fn := range p.ModFuncs {
+			k := FuncKey(fn)
+			if k == pat || (strings.HasSuffix(pat, "*") && strings.HasPrefix(k, strings.TrimSuffix(pat, "*"))) {
+				matched = true
+				frs = append(frs, e.VerifyFunc(fn, e.specs.Funcs[k], *lock))
+			}
+		}
+		if !matched {
+			fmt.Fprintln(os.Stderr, "no function matches", pat)
+		}
+	}
+	dir, _ := os.MkdirTemp("", "govc")
+	defer os.RemoveAll(dir)
+	keep := ""
+	if *dump {
+		keep = "/tmp/govc-dump"
+	}
+	Solve(frs, dir, *timeout, keep)
+	for _, fr := range frs {
+		printResult(fr, *verbose)
+	}
+}
+
+func printResult(fr *FuncResult, verbose bool) {
+	fmt.Printf("== %s  (%d obligations)\n", fr.Key, len(fr.Obls))
+	if fr.Unsupported != "" {
+		fmt.Printf("   UNSUPPORTED: %s\n", fr.Unsupported)
+	}
+	if fr.SpecError != "" {
+		fmt.Printf("   SPEC ERROR: %s\n", fr.SpecError)
+	}
+	for _, u := range fr.Unknown {
+		fmt.Printf("   unknown call: %s\n", u)
+	}
+	if verbose {
+		fmt.Printf("   inlined: %s\n   contracts used: %s\n", strings.Join(fr.Inlined, ", "), strings.Join(fr.UsedSpecs, ", "))
+	}
+	sort.SliceStable(fr.Obls, func(i, j int) bool { return false })
+	for _, o := range fr.Obls {
+		if o.Verdict == "proved" && !verbose {
+			continue
+		}
+		fmt.Printf("   %-9s %-60s %s %.2fs  %s\n", o.Verdict, o.Name, o.Solver, o.Seconds, posStr(o))
+		if (o.Verdict == "refuted" || o.Verdict == "candidate") && o.Model != "" {
+			fmt.Printf("      model: %s\n", firstLines(o.Model, 12))
+		}
+		if o.Verdict == "undecided" && verbose {
+			fmt.Printf("      %s\n", o.Output)
+		}
+	}
+	np := 0
+	for _, o := range fr.Obls {
+		if o.Verdict == "proved" {
+			np++
+		}
+	}
+	cov := ""
+	if fr.Cover != nil {
+		cov = " cover:" + fr.Cover.Verdict
+	}
+	fmt.Printf("   proved %d/%d%s\n", np, len(fr.Obls), cov)
+}
+
+func posStr(o *Obligation) string {
+	if o.Pos.Filename == "" {
+		return ""
+	}
+	return fmt.Sprintf("%s:%d", filepath.Base(o.Pos.Filename), o.Pos.Line)
+}
+
